@@ -794,4 +794,14 @@ def c08_planner(funcs, text, max_n=6):
     return obs, dict(models=sorted(models_used), inlined=[f, clo])
 
 
-UNITS = {"c08_planner": c08_planner, "c07_apply_glue": c07_apply_glue, "c12_mapping": c12_mapping, "c10_trigger": c10_trigger, "c07_prune_glue": c07_prune_glue}
+def _stack_gou_glue(funcs, text):
+    from . import smt_stack
+    return smt_stack.stack_gou_glue(funcs, text)
+
+
+def _stack_finalize_glue(funcs, text):
+    from . import smt_stack
+    return smt_stack.stack_finalize_glue(funcs, text)
+
+
+UNITS = {"stack_gou_glue": _stack_gou_glue, "stack_finalize_glue": _stack_finalize_glue, "c08_planner": c08_planner, "c07_apply_glue": c07_apply_glue, "c12_mapping": c12_mapping, "c10_trigger": c10_trigger, "c07_prune_glue": c07_prune_glue}
